@@ -5,6 +5,7 @@ import ErbiumModel.Judge.Dhcp
 import ErbiumModel.Judge.C08
 import ErbiumModel.Judge.C16
 import ErbiumModel.Judge.C06
+import ErbiumModel.Judge.C15
 /-! Line-protocol driver. stdin: `<suite> <input tokens> => <implementation observation>`;
     stdout: `<correspondence verdict> | <oracle verdict>` per line. -/
 open Erbium Util
@@ -22,6 +23,7 @@ def judge (suite : String) (inp obs : List String) : Verdict :=
   | "bucket" => Judge.C16.judgeBucket inp obs
   | "ratelimit" => Judge.C16.judgeRatelimit inp obs
   | "cache" => Judge.C06.judge inp obs
+  | "route" => Judge.C15.judge inp obs
   | _ => badInput ("unknown-suite:" ++ suite)
 
 def judgeLine (line : String) : String :=
